@@ -993,6 +993,28 @@ pub fn pure_lines(idx: usize, seed: u64, w: &mut dyn Write, thorough: bool) -> O
             g.stats.pure += 1;
         }
     }
+    // the reply entry point: only id 1 (the registry instantiation) is accepted
+    if idx == 0 {
+        use cosmwasm_std::testing::mock_env;
+        use cosmwasm_std::{Binary, Reply, SubMsgResponse, SubMsgResult};
+        for id in [0u64, 1, 2, 3, 7, u64::MAX] {
+            for (tag, addr) in [("V", g.h.sim.registry_addr().to_string()), ("I", crate::ops::INVALID_ADDR.to_string())] {
+                let mut deps = mock_dependencies();
+                // MsgInstantiateContractResponse { address = 1 }
+                let mut data = vec![0x0Au8, addr.len() as u8];
+                data.extend_from_slice(addr.as_bytes());
+                let r = marketplace::contract::reply(
+                    deps.as_mut(),
+                    mock_env(),
+                    Reply { id, result: SubMsgResult::Ok(SubMsgResponse { events: vec![], data: Some(Binary::from(data)) }) },
+                );
+                let a = if tag == "V" { format!("V {}", g.h.sim.addr_num(&addr)) } else { "I".to_string() };
+                let l = format!("REPLY {} {} {}", id, a, if r.is_ok() { "ok" } else { "err" });
+                g.emit(&l);
+                g.stats.pure += 1;
+            }
+        }
+    }
     // out-of-range rates straight into the function (u64 sum overflow = abort)
     if idx == 0 {
         let gb = GenericBalance { native: natives(&[(1000, JUNO_DENOM)]), cw20: vec![], nfts: vec![] };
